@@ -17,9 +17,19 @@ impl Rnd {
 }
 fn ch<T: Copy>(r: &mut Rnd, xs: &[T]) -> T { xs[r.below(xs.len() as u64) as usize] }
 
+/// the source of a Sync / Follow_Up / Delay_Resp: mostly the parent, sometimes another clock, sometimes another port of the parent's clock
+fn other_src(r: &mut Rnd, parent: &Value) -> Value {
+    match r.below(8) {
+        0 => json!([9, 1]),
+        1 => json!([parent[0], parent[1].as_u64().unwrap_or(0) + 1]),
+        _ => parent.clone(),
+    }
+}
+
 fn variant_cfg(v: &str, seed: u64) -> Value {
     match v {
         "A" => json!({"own": {"id": 5}, "ports": [{"p2p": false, "asym": "asym"}, {"p2p": false, "asym": "asym"}], "seed": seed}),
+        "M" => json!({"own": {"id": 5}, "ports": [{"p2p": false, "asym": "asym"}, {"p2p": false, "asym": "asym"}], "seed": seed}),
         "B" => json!({"own": {"id": 5, "ptrace": true}, "ports": [{"p2p": false, "asym": "asym"}, {"p2p": false, "mo": true, "asym": "asym"}], "seed": seed}),
         _ => json!({"own": {"id": 5}, "ports": [{"p2p": false, "aml": [2, 9], "asym": "asym"}, {"p2p": true, "asym": "asym"}, {"p2p": false, "mo": true, "asym": "asym"}], "seed": seed}),
     }
@@ -39,7 +49,18 @@ fn abs_out(o: &Value) -> Value {
     Value::Array(o.as_array().map(|a| a.iter().map(|x| match x["a"].as_str().unwrap() {
         "T" => json!({"a": "T", "k": x["k"], "d": x["d"]}),
         "F" => json!({"a": "F", "ty": x["tlv"]["ty"], "len": x["tlv"]["len"]}),
-        _ => json!({"a": x["a"], "t": x["t"], "seq": x["seq"]}),
+        _ => {
+            // a frame: type, sequence id, and the discrete content (what an Announce advertises, whom a response answers)
+            let mut o = json!({"a": x["a"], "t": x["t"], "seq": x["seq"]});
+            if x["t"] == "Announce" {
+                let mut tpv = x["tp"].clone();
+                if tpv["utc"].is_null() { tpv["utc"] = json!(99999); }
+                tpv.as_object_mut().unwrap().remove("utcraw");
+                o["gm"] = x["gm"].clone(); o["steps"] = x["steps"].clone(); o["tp"] = tpv; o["tlvs"] = x["tlvs"].clone();
+            }
+            if let Some(r) = x.get("req") { o["req"] = r.clone(); }
+            o
+        }
     }).collect()).unwrap_or_default())
 }
 
@@ -59,6 +80,9 @@ fn obs(w: &World<RecMutex>, res: &Value) -> Value {
                   "msgs": m["msgs"].as_array().unwrap().iter().map(|x| json!({"seq": x["seq"], "age": x["age"].as_i64().unwrap() / 1000, "steps": x["steps"]})).collect::<Vec<_>>()})).collect())).collect::<Vec<_>>(),
         "rng": pr["rng"],
         "clk": pr["clk"].as_array().unwrap().iter().map(|c| json!([c[0], c[1]])).collect::<Vec<_>>(),
+        // calls on the port's filter: which port, which call, and which of offset / delay / peer delay a measurement carries
+        "flt": pr["flt"].as_array().unwrap().iter().map(|c| if c["k"] == "meas" { json!({"p": c["p"], "k": "meas", "off": !c["off"].is_null(), "dly": !c["dly"].is_null(), "pdly": !c["pdly"].is_null()}) }
+                  else { json!({"p": c["p"], "k": c["k"]}) }).collect::<Vec<_>>(),
     });
     if let Some(p) = res.get("pend") { o["pend"] = Value::Array(p.as_array().unwrap().iter().map(abs_out).collect()); } else { o["out"] = abs_out(&res["out"]); }
     o
@@ -72,6 +96,9 @@ fn main() {
     let mut events = 10000usize;
     let mut runlen = 400usize;
     let mut trace = String::new();
+    let mut rerun = String::new();
+    let mut replay_dir = String::new();
+    let mut panic_keeps: Vec<Value> = Vec::new();
     let mut i = 1;
     while i < args.len() {
         match args[i].as_str() {
@@ -80,12 +107,31 @@ fn main() {
             "--events" => { events = args[i + 1].parse().unwrap(); i += 1; }
             "--runlen" => { runlen = args[i + 1].parse().unwrap(); i += 1; }
             "--trace" => { trace = args[i + 1].clone(); i += 1; }
-            "--replay-dir" => { i += 1; }
+            "--rerun" => { rerun = args[i + 1].clone(); i += 1; }
+            "--replay-dir" => { replay_dir = args[i + 1].clone(); i += 1; }
             _ => {}
         }
         i += 1;
     }
     let mut f = std::io::BufWriter::new(std::fs::File::create(&trace).unwrap());
+    if !rerun.is_empty() {
+        // replay of a kept run: the recorded events are executed again on a fresh real instance and logged afresh
+        let keep: Value = serde_json::from_str(&std::fs::read_to_string(&rerun).unwrap()).unwrap();
+        let mut w: World<RecMutex> = World::new(Cfg::from_json(&keep["cfg"]));
+        w.start();
+        writeln!(f, "{}", json!({"e": "reset", "variant": keep["variant"], "cfg": keep["cfg"]})).unwrap();
+        let mut n = 0;
+        for ev in keep["events"].as_array().unwrap() {
+            let res = w.step(ev);
+            if res.get("panic").is_some() { println!("{}", json!({"panic": res["panic"], "at": n})); break; }
+            if res.get("skipped").is_some() { continue; }
+            writeln!(f, "{}", json!({"e": "call", "ev": ev, "obs": obs(&w, &res)})).unwrap();
+            n += 1;
+        }
+        f.flush().unwrap();
+        println!("{}", json!({"events": n, "rerun": rerun}));
+        return;
+    }
     let mut r = Rnd(seed.wrapping_mul(0x2545F4914F6CDD1D) ^ variant.as_bytes()[0] as u64);
     let mut total = 0usize;
     let mut panics = 0u64;
@@ -96,12 +142,18 @@ fn main() {
         let cfgv = variant_cfg(&variant, seed + run);
         let mut w: World<RecMutex> = World::new(Cfg::from_json(&cfgv));
         w.start();
-        if total > 0 { writeln!(f, "{}", json!({"e": "reset"})).unwrap(); total += 1; }
+        writeln!(f, "{}", json!({"e": "reset", "variant": variant, "cfg": cfgv})).unwrap(); total += 1;
         let np = w.ports.len() as u64;
         let mut seqs: std::collections::BTreeMap<String, u64> = Default::default();
         let mut sync_n = 0u64;
+        let mut run_events: Vec<Value> = Vec::new();
         for _ in 0..runlen {
-            let p = 1 + r.below(np);
+            let mut p = 1 + r.below(np);
+            // half of the time aim at the slave port, if there is one (otherwise exchanges rarely complete)
+            if r.below(2) == 0 {
+                let pst = w.project(&json!({}))["pst"].clone();
+                if let Some(i) = pst.as_array().unwrap().iter().position(|x| x == "S") { p = i as u64 + 1; }
+            }
             let snap = w.snapshot((p - 1) as usize);
             let did = snap["delay"]["id"].as_u64().unwrap_or(0);
             let sid = snap["sync"]["id"].as_u64().unwrap_or(sync_n);
@@ -109,11 +161,15 @@ fn main() {
             let parent = w.project(&json!({}))["ppi"].clone();
             let ev = match r.below(40) {
                 0..=9 => {
+                    // variant M: many distinct masters on one port (the foreign master list holds at most eight)
+                    let many = variant == "M";
                     let srcs = [json!([2, 1]), json!([9, 1]), json!([3, 2]), json!([5, 1]), json!([5, 3]), json!([11, 1])];
-                    let gi = r.below(6) as usize;
-                    let src = srcs[gi].clone();
+                    let gi = if many { r.below(14) as usize } else { r.below(6) as usize };
+                    let src = if gi < 6 { srcs[gi].clone() } else { json!([6 + gi as u64, 1]) };
+                    let gi = gi % 6;
                     let key = src.to_string();
-                    let cur = *seqs.entry(key.clone()).or_insert(if gi == 0 { 65533 } else { r.below(100) });
+                    // sequence ids start just below the two seams of the serial-number comparison for the first two masters
+                    let cur = *seqs.entry(key.clone()).or_insert(if gi == 0 { 65533 } else if gi == 1 { 32765 } else { r.below(100) });
                     let seq = match r.below(10) { 0 => (cur + 65535) % 65536, 1 => (cur + 65534) % 65536, 2 => { seqs.insert(key, (cur + 2) % 65536); (cur + 1) % 65536 } _ => { seqs.insert(key, (cur + 1) % 65536); cur } };
                     let g = GMS[[0usize, 1, 2, 3, 4, 2][gi]];
                     let mut ev = json!({"e": "ann", "p": p, "src": src, "seq": seq, "g": g, "steps": ch(&mut r, &[0u64, 0, 1, 2, 254, 255]), "tp": tp(&mut r)});
@@ -124,10 +180,10 @@ fn main() {
                 }
                 10..=13 => json!({"e": "bmca"}),
                 14..=20 => json!({"e": "t", "k": ch(&mut r, &["ann", "sync", "dreq", "rcpt", "filt", "dreq", "ann"]), "p": p}),
-                21..=24 => { sync_n += 1; let src = if r.below(5) == 0 { json!([9, 1]) } else { parent.clone() };
+                21..=24 => { sync_n += 1; let src = other_src(&mut r, &parent);
                              json!({"e": "sync", "p": p, "src": src, "seq": if r.below(4) == 0 { sid } else { sync_n % 65536 }, "two": r.below(2) == 0, "rx": format!("t2_{}", sync_n), "c": format!("cs_{}", sync_n), "w1": format!("w1_{}", sync_n)}) }
-                25..=26 => json!({"e": "fup", "p": p, "src": if r.below(5) == 0 { json!([9, 1]) } else { parent.clone() }, "seq": if r.below(3) == 0 { sync_n % 65536 } else { sid }, "w1": format!("w1_{}", sync_n), "c": format!("cf_{}", sync_n)}),
-                27..=28 => json!({"e": "dresp", "p": p, "src": parent.clone(), "seq": did, "req": [5, if r.below(6) == 0 { 1 + r.below(3) } else { p }], "w4": format!("w4_{}", sync_n), "c": format!("cr_{}", sync_n)}),
+                25..=26 => json!({"e": "fup", "p": p, "src": other_src(&mut r, &parent), "seq": if r.below(3) == 0 { sync_n % 65536 } else { sid }, "w1": format!("w1_{}", sync_n), "c": format!("cf_{}", sync_n)}),
+                27..=28 => json!({"e": "dresp", "p": p, "src": other_src(&mut r, &parent), "seq": did, "req": [5, if r.below(6) == 0 { 1 + r.below(3) } else { p }], "w4": format!("w4_{}", sync_n), "c": format!("cr_{}", sync_n)}),
                 29..=31 => {
                     let n = w.ctxs[(p - 1) as usize].len() as u64;
                     let free: Vec<u64> = (1..=n).filter(|c| w.ctxs[(p - 1) as usize][(*c - 1) as usize].is_some()).collect();
@@ -143,12 +199,23 @@ fn main() {
             };
             *kinds.entry(ev["e"].as_str().unwrap().to_string()).or_default() += 1;
             let res = w.step(&ev);
-            if res.get("panic").is_some() { panics += 1; break; }
+            if res.get("panic").is_some() {
+                // a panic of the code under test is data: keep the run's events for replay
+                panics += 1;
+                if !replay_dir.is_empty() && panic_keeps.len() < 5 {
+                    run_events.push(ev.clone());
+                    let path = format!("{}/panic-{}-{}.json", replay_dir, variant, run);
+                    std::fs::write(&path, json!({"kind": "insttrace", "variant": variant, "cfg": cfgv, "events": run_events, "fields": ["panic"], "panic": res["panic"]}).to_string()).unwrap();
+                    panic_keeps.push(json!({"replay": path, "panic": res["panic"], "last": ev}));
+                }
+                break;
+            }
+            run_events.push(ev.clone());
             if res.get("skipped").is_some() { continue; }
             writeln!(f, "{}", json!({"e": "call", "ev": ev, "obs": obs(&w, &res)})).unwrap();
             total += 1;
         }
     }
     f.flush().unwrap();
-    println!("{}", json!({"events": total, "runs": run, "panics": panics, "events_by_kind": kinds}));
+    println!("{}", json!({"events": total, "runs": run, "panics": panics, "panic_keeps": panic_keeps, "events_by_kind": kinds}));
 }
